@@ -19,9 +19,9 @@ RULE = ("one case = one generated UB-free C11 program: globals of every integer 
         "width, so no program depends on undefined or unspecified behaviour. distinct = distinct program shapes")
 
 ITYPES = [("signed char", 8, True), ("unsigned char", 8, False), ("short", 16, True), ("unsigned short", 16, False), ("int", 32, True), ("unsigned", 32, False),
-          ("long", 64, True), ("unsigned long", 64, False), ("long long", 64, True), ("unsigned long long", 64, False), ("char", 8, True)]
+          ("long", 64, True), ("unsigned long", 64, False), ("long long", 64, True), ("unsigned long long", 64, False), ("char", 8, True), ("_Bool", 1, False)]
 LITS = ["0", "1", "2", "3", "7", "10", "100", "127", "128", "255", "256", "1000", "32767", "32768", "65535", "65536", "2147483647", "2147483648u", "4294967295u", "-1", "-2", "-128",
-        "-32768", "0x7fffffffffffffffLL", "0xffffffffffffffffULL", "1L", "-1L", "3u", "5ul", "9LL", "(char) 200", "(short) -3", "(unsigned char) 250", "1ull << 40"]
+        "-32768", "0x7fffffffffffffffLL", "0xffffffffffffffffULL", "1L", "-1L", "3u", "5ul", "9LL", "'a'", "'\\0'", "(char) 200", "(short) -3", "(unsigned char) 250", "1ull << 40"]
 
 
 class Gen:
@@ -100,8 +100,8 @@ class Gen:
             self.globals.append(("g%d" % i, t))
             L.append("%s g%d = %s;" % (t[0], i, "(%s) %s" % (t[0], self.lit())))
         L.append("long long ga[7] = {%s};" % ", ".join(self.lit() for _ in range(7)))
-        L.append("struct in { short x; unsigned long y; }; struct S { int a : 5; unsigned b : 11; long c : 33; unsigned char d; struct in in; } gs;")
-        L.append("long *gp = (long *) &ga[2]; double gd = 2.5; float gf = 1.25f;")
+        L.append("struct in { short x; unsigned long y; }; struct S { int a : 5; unsigned b : 11; long c : 33; unsigned char d; struct in in; } gs = {-3, 1000, -5, 200, {-7, 9}};")
+        L.append("long long *gp = &ga[2]; double gd = 2.5; float gf = 1.25f;")  # same type as the array: c2mir uses type-based alias information
         # compile-time folding: the same constant expressions in folded and in run-time positions
         consts = [self.expr(3, const=True) for _ in range(r.randint(4, 8))]
         for i, c in enumerate(consts):
@@ -148,7 +148,7 @@ class Gen:
             L.append("%s f%d (%s) {\n%s\n}" % (rt[0], fi, params, "\n".join(body)))
             self.shape.append((rt[0], tuple(t[0] for t in ptypes), len(body)))
         # _Bool and char globals must not be ++/-- past their range in ways that differ? (++ on _Bool is defined: becomes 1; -- toggles) fine
-        M = ["int main (void) {", "  gs.a = -3; gs.b = 1000; gs.c = -5; gs.d = 200; gs.in.x = -7; gs.in.y = 9;"]
+        M = ["int main (void) {"]
         for i, c in enumerate(consts):
             M.append("  out (\"k%d\", k%d); out (\"E%d\", E%d); out (\"sz%d\", (long long) sizeof (arr%d)); out (\"rt%d\", (long long) (%s));" % (i, i, i, i, i, i, i, c))
         for i in range(r.randint(4, 8)):
@@ -164,7 +164,7 @@ class Gen:
         return "\n".join(L + M) + "\n", hash(tuple(self.shape)) & 0xffffffffffff
 
 
-# Constructs with confirmed c2mir defects (known_findings.json) are kept out of the generated programs and re-observed by these fixed probes
+# Fixed probes for defects this check found and that were repaired (known_findings.json, status fixed): they report again if one returns
 PROBES = {
     "bool-conversion-truncates": "(long long) (_Bool) 256 + 2 * (long long) (_Bool) 0.5",
     "char-constant-has-type-char": "(long long) sizeof ('a')",
@@ -256,7 +256,7 @@ def run(tier):
         for k in PROBES:
             res.counters["known_defect_probes"] = res.counters.get("known_defect_probes", 0) + 1
             if got_l.get(k) != ref_l.get(k):
-                res.add_viol("known-defect-probe:%s" % k, "probe expression %s: c2m -ei gives %s, gcc gives %s\n%s" % (PROBES[k], got_l.get(k), ref_l.get(k), PROBE_SRC), cmd="./run C07")
+                res.add_viol("regression-probe:%s" % k, "probe expression %s: c2m -ei gives %s, gcc gives %s\n%s" % (PROBES[k], got_l.get(k), ref_l.get(k), PROBE_SRC), cmd="./run C07")
         with ThreadPoolExecutor(max_workers=common.NCPU) as ex:
             for results in ex.map(one_case, [(c2m, seed, i, tmp) for i in range(n)]):
                 res.counters["cases"] = res.counters.get("cases", 0) + 1
